@@ -44,8 +44,20 @@ class CaseTimeout(BaseException):
     pass
 
 
+class HarnessSlow(BaseException):
+    pass
+
+
 def _alarm(signum, frame):
-    raise CaseTimeout()
+    # Only a stack that is inside the library (or the solver called by it) is a library hang; a slow oracle is a harness problem
+    repo = os.path.realpath(common.REPO) + os.sep
+    f = frame
+    while f is not None:
+        fn = os.path.realpath(f.f_code.co_filename)
+        if fn.startswith(repo) or os.sep + "highspy" + os.sep in fn:
+            raise CaseTimeout()
+        f = f.f_back
+    raise HarnessSlow()
 
 
 CASE_TIMEOUT = int(os.environ.get("VERIF_CASE_TIMEOUT", "240"))
@@ -60,6 +72,8 @@ def _work(arg):
         pass
     try:
         return _work_inner(arg)
+    except HarnessSlow:
+        return arg[1], None, f"HARNESS TOO SLOW: the reference model did not finish within {CASE_TIMEOUT}s on this case (not a library hang)"
     except CaseTimeout:
         return arg[1], {"v": [{"kind": "no_answer_within_timeout", "msg": f"the library did not return within {CASE_TIMEOUT}s on this case (normal cases take seconds): hang / non-termination"}],
                         "nt": None, "tags": [], "out": "timeout"}, None
@@ -87,7 +101,7 @@ def _work_inner(arg):
             elif isinstance(tg, list):
                 tg.extend(["highs_presolve_rescue"] * _drv.RESCUE_COUNT)
         return case, res, None
-    except CaseTimeout:
+    except (CaseTimeout, HarnessSlow):
         raise
     except SystemExit as e:
         return case, {"v": [{"kind": "system_exit", "msg": f"SystemExit({e.code}) escaped from the library"}],
